@@ -10,6 +10,7 @@ import (
 	"fmt"
 	"math"
 	"os"
+	"runtime"
 	"strconv"
 	"sync"
 	"time"
@@ -111,6 +112,26 @@ func next(label string) (string, bool) {
 }
 
 func Symbolic() bool { return false }
+
+// GoroutineBaseline / ParkedGoroutines: leak observation. Under the symbolic executor
+// ParkedGoroutines is the number of goroutines of the code under test that are blocked on a
+// channel for good at this moment (cooperative schedule, engine/symx/sched.go). Natively it is
+// the number of goroutines above the baseline after giving the runnable ones time to finish.
+var goroutineBase int
+
+func GoroutineBaseline() { goroutineBase = runtime.NumGoroutine() }
+
+func ParkedGoroutines() int {
+	n := 0
+	for k := 0; k < 50; k++ {
+		time.Sleep(2 * time.Millisecond)
+		n = runtime.NumGoroutine() - goroutineBase
+		if n <= 0 {
+			return 0
+		}
+	}
+	return n
+}
 
 func Bool(label string) bool {
 	v, ok := next(label)
